@@ -64,7 +64,8 @@ class C09(core.Property):
   ID = 'C09'
   RULE = ('cases = experiment configuration (num_rounds, checkpoint_frequency, num_checkpoints_to_keep >= 1, '
           'eval_frequency, number of final evaluation functions, periodic evaluation on/off, state size, junk files '
-          'with near-miss checkpoint names) x either the exhaustive enumeration of every single crash point '
+          'with near-miss checkpoint names, server state = dict | bare numpy/jax vector | bare Python / 0-d counter that '
+          'is exactly 0 at a chosen round) x either the exhaustive enumeration of every single crash point '
           '(event index x byte prefix of each write) or a sampled sequence of 1-3 crashes; every crash is followed by '
           'a completed re-run; non-trivial = the configuration checkpoints and at least one crash happened after the '
           'first file-system effect; distinct by case digest')
@@ -136,14 +137,14 @@ class C09(core.Property):
       def __call__(self, state, round_num):
         prop.cur.event('step', f'final_eval{self._e}')
         return collections.OrderedDict([
-            ('eval', self._e), ('hist', prop.hist_str(state)), ('vecsum', int(np.sum(state['vec']))),
+            ('eval', self._e), ('hist', prop.hist_str(state)), ('vecsum', prop.vecsum(state)),
             ('round', int(round_num)), ('zz_end', 'END')])
 
     class PeriodicEval(federated_experiment.EvaluationFn):
 
       def __call__(self, state, round_num):
         prop.cur.event('step', 'periodic_eval')
-        return {'n': len(state['hist']), 'round': round_num}
+        return {'n': len(prop.hist_str(state)), 'round': round_num}
 
     class TrainEval(federated_experiment.TrainClientsEvaluationFn):
 
@@ -156,15 +157,41 @@ class C09(core.Property):
 
   # ------------------------------------------------------------------------------------------
   # the toy algorithm and its independent reference
+  # The server state is an arbitrary pytree for run_federated_experiment.  Kinds used here:
+  #   dict    {'vec': int vector, 'hist': tuple of sampled-client tuples}   (records which rounds were applied)
+  #   array   a bare numpy vector        jax     a bare jax vector
+  #   scalar  a bare Python int counter  zerod   a bare 0-d numpy array
+  # (the counters start at cfg['zero_at'] and lose 1 per round: exactly 0 after round `zero_at`)
+  @staticmethod
+  def is_bare(state):
+    return not isinstance(state, dict)
+
   @staticmethod
   def hist_str(state):
-    return 'h:' + '|'.join(','.join(c.decode() for c in ids) for ids in state['hist'])
+    if isinstance(state, dict):
+      return 'h:' + '|'.join(','.join(c.decode() for c in ids) for ids in state['hist'])
+    return 'v:' + '.'.join(str(int(x)) for x in np.asarray(state).ravel())
+
+  @staticmethod
+  def vecsum(state):
+    return int(np.sum(np.asarray(state['vec'] if isinstance(state, dict) else state)))
 
   @staticmethod
   def fold(state, ids):
     h = sum((i + 1) * int.from_bytes(c, 'big') for i, c in enumerate(ids)) % 1000003
-    vec = (state['vec'] * 31 + h + np.arange(len(state['vec']), dtype=np.int64)) % 1000003
-    return {'vec': vec, 'hist': state['hist'] + (tuple(ids),)}
+    if isinstance(state, dict):
+      vec = (state['vec'] * 31 + h + np.arange(len(state['vec']), dtype=np.int64)) % 1000003
+      return {'vec': vec, 'hist': state['hist'] + (tuple(ids),)}
+    if isinstance(state, (int, np.integer)) and not isinstance(state, bool):
+      return int(state) - 1
+    arr = np.asarray(state)
+    if arr.ndim == 0:
+      return np.array(int(arr) - 1, dtype=arr.dtype)
+    new = ((arr.astype(np.int64) * 31 + h + np.arange(arr.shape[0], dtype=np.int64)) % 1000003).astype(arr.dtype)
+    if isinstance(state, np.ndarray):
+      return new
+    import jax.numpy as jnp
+    return jnp.asarray(new)
 
   @staticmethod
   def ids_ext(clients):
@@ -174,8 +201,20 @@ class C09(core.Property):
     return ids + (('k' + '.'.join(str(int(x)) for x in key)).encode(),)
 
   @staticmethod
-  def init_state(vec):
-    return {'vec': np.arange(vec, dtype=np.int64) % 7, 'hist': ()}
+  def init_state(cfg):
+    kind, vec = cfg.get('state', 'dict'), cfg['vec']
+    if kind == 'dict':
+      return {'vec': np.arange(vec, dtype=np.int64) % 7, 'hist': ()}
+    if kind == 'array':
+      return np.arange(max(vec, 2), dtype=np.int64) % 7
+    if kind == 'jax':
+      import jax.numpy as jnp
+      return jnp.asarray(np.arange(max(vec, 2), dtype=np.int32) % 7)
+    if kind == 'scalar':
+      return int(cfg.get('zero_at', 1))
+    if kind == 'zerod':
+      return np.array(int(cfg.get('zero_at', 1)), dtype=np.int64)
+    raise ValueError(kind)
 
   @staticmethod
   def cheap_ids(seed, r):
@@ -183,12 +222,13 @@ class C09(core.Property):
     rnd = _random.Random(seed * 1000003 + r)
     return [f'c{i:02d}'.encode() for i in rnd.sample(range(12), NUM_CLIENTS)]
 
-  def world(self, seed, vec, maxr, kind='uniform'):
+  def world(self, cfg, maxr):
     """Independent reference: clients of round r (fresh sampler), states S[0..maxr]."""
-    key = (seed, vec, kind)
+    seed, kind = cfg['seed'], cfg.get('sampler', 'uniform')
+    key = (seed, cfg['vec'], kind, cfg.get('state', 'dict'), cfg.get('zero_at', 1))
     w = self._worlds.get(key)
     if w is None or len(w['S']) <= maxr + 1:
-      ids_of, S = {}, [self.init_state(vec)]
+      ids_of, S = {}, [self.init_state(cfg)]
       for r in range(1, maxr + 3):
         if kind == 'uniform':
           smp = self.samplers.UniformGetClientSampler(self.fd, NUM_CLIENTS, seed)
@@ -201,7 +241,11 @@ class C09(core.Property):
       id2round = {}
       for r, ids in ids_of.items():
         id2round.setdefault(ids, r)
-      w = {'ids_of': ids_of, 'S': S, 'id2round': id2round, 'distinct': len(id2round) == len(ids_of)}
+      sig2round = {}
+      for r, st in enumerate(S):
+        sig2round.setdefault(self.hist_str(st), r)
+      w = {'ids_of': ids_of, 'S': S, 'id2round': id2round, 'sig2round': sig2round,
+           'distinct': len(id2round) == len(ids_of) and len(sig2round) == len(S)}
       if len(self._worlds) > 30:
         self._worlds.clear()
       self._worlds[key] = w
@@ -209,12 +253,22 @@ class C09(core.Property):
 
   @staticmethod
   def state_eq(a, b):
-    return (isinstance(a, dict) and isinstance(b, dict) and set(a) == set(b) == {'vec', 'hist'} and
-            np.array_equal(a['vec'], b['vec']) and np.asarray(a['vec']).dtype == np.asarray(b['vec']).dtype and
-            tuple(a['hist']) == tuple(b['hist']))
+    if isinstance(a, dict) or isinstance(b, dict):
+      return (isinstance(a, dict) and isinstance(b, dict) and set(a) == set(b) == {'vec', 'hist'} and
+              np.array_equal(a['vec'], b['vec']) and np.asarray(a['vec']).dtype == np.asarray(b['vec']).dtype and
+              tuple(a['hist']) == tuple(b['hist']))
+    try:
+      x, y = np.asarray(a), np.asarray(b)
+      return x.shape == y.shape and x.dtype.kind == y.dtype.kind and bool(np.array_equal(x, y))
+    except Exception:   # pylint: disable=broad-except
+      return False
 
   def rounds_of(self, state, w):
-    return [w['id2round'].get(tuple(ids), 0) for ids in state['hist']]
+    """the rounds whose clients went into `state` (model state), 0 = not a round of this experiment"""
+    if isinstance(state, dict):
+      return [w['id2round'].get(tuple(ids), 0) for ids in state['hist']]
+    r = w['sig2round'].get(self.hist_str(state))
+    return [0] if r is None else list(range(1, r + 1))
 
   # ------------------------------------------------------------------------------------------
   # patched invocation
@@ -277,7 +331,7 @@ class C09(core.Property):
     self.fjlog.Logger.log = w_log
     self.ckpt.save_checkpoint = w_save
     try:
-      state = self.fx.run_federated_experiment(algorithm, self.init_state(cfg['vec']), sampler, config,
+      state = self.fx.run_federated_experiment(algorithm, self.init_state(cfg), sampler, config,
                                                periodic, final if final else None)
       return ('ok', state)
     except Crash:
@@ -302,7 +356,8 @@ class C09(core.Property):
   def classify_pickle(self, data, w):
     try:
       st = pickle.loads(data)
-      if isinstance(st, dict) and 'hist' in st and 'vec' in st:
+      if (isinstance(st, dict) and 'hist' in st and 'vec' in st) or (
+          not isinstance(st, dict) and self.is_bare(w['S'][0]) and np.asarray(st).dtype.kind in 'iu'):
         return ['full', self.rounds_of(st, w)], st
     except Exception:   # pylint: disable=broad-except
       pass
@@ -314,6 +369,9 @@ class C09(core.Property):
       if text.endswith('END'):
         head, vals = text.split('\n')
         d = dict(zip(head.split('\t'), vals.split('\t')))
+        if d['hist'].startswith('v:'):
+          r = w['sig2round'].get(d['hist'])
+          return ['out', [0] if r is None else list(range(1, r + 1)), int(d['round'])]
         hs = d['hist'][2:]
         hist = [tuple(c.encode() for c in part.split(',')) for part in hs.split('|')] if hs else []
         return ['out', [w['id2round'].get(ids, 0) for ids in hist], int(d['round'])]
@@ -399,7 +457,7 @@ class C09(core.Property):
       return probs
     if not self.state_eq(res[1], ref['state']):
       probs.append(('C09/resumed-state-differs',
-                    f're-run returned state after rounds {self.rounds_of(res[1], w) if isinstance(res[1], dict) else res[1]}, '
+                    f're-run returned state after rounds {self.rounds_of(res[1], w)} ({self.hist_str(res[1])[:60]}), '
                     f'uninterrupted run {self.rounds_of(ref["state"], w)}'))
     tsv = self.read_tsvs(root, cfg)
     for e in range(cfg['nFinal']):
@@ -412,16 +470,29 @@ class C09(core.Property):
 
   # ------------------------------------------------------------------------------------------
   def gen_cases(self, rng, tier):
-    def cfg(R, freq, keep, ev, nf=1, periodic=None, vec=3, seed=0, sampler='uniform'):
-      return {'R': R, 'freq': freq, 'keep': keep, 'evalFreq': ev, 'nFinal': nf,
-              'periodic': bool(ev) if periodic is None else periodic, 'vec': vec, 'seed': seed, 'sampler': sampler}
+    def cfg(R, freq, keep, ev, nf=1, periodic=None, vec=3, seed=0, sampler='uniform', state='dict', zero_at=1):
+      c = {'R': R, 'freq': freq, 'keep': keep, 'evalFreq': ev, 'nFinal': nf,
+           'periodic': bool(ev) if periodic is None else periodic, 'vec': vec, 'seed': seed, 'sampler': sampler}
+      if state != 'dict':
+        c['state'] = state          # the server state is a bare array / a bare scalar (any pytree is allowed)
+        c['zero_at'] = zero_at      # counters: exactly 0 after this round
+      return c
     # restart after a clean finish / defects known from reading, first
     yield {'cfg': cfg(2, 1, 1, 0), 'junk': False, 'enumerate': True}
     yield {'cfg': cfg(3, 2, 2, 1, nf=2), 'junk': True, 'enumerate': True}
     # name ordering across 9 -> 10 (99 -> 100 in the thorough tier) and a multi-frame pickle
     yield {'cfg': cfg(11, 1, 2, 0, seed=1, sampler='cheap'), 'junk': True, 'enumerate': True, 'from': 9}
     yield {'cfg': cfg(2, 1, 1, 0, vec=40000, sampler='cheap'), 'junk': False, 'enumerate': True}
+    # server states that are not containers: a bare vector, a bare counter that is exactly 0 at a checkpointed round
+    yield {'cfg': cfg(2, 1, 1, 0, sampler='cheap', state='array'), 'junk': False, 'enumerate': True}
+    yield {'cfg': cfg(3, 1, 2, 0, sampler='cheap', state='scalar', zero_at=2), 'junk': False, 'enumerate': True}
+    yield {'cfg': cfg(3, 2, 1, 0, nf=2, sampler='cheap', state='zerod', zero_at=2), 'junk': False,
+           'sched': [[9000, 0, 0], [9900, 0, 2]]}
+    yield {'cfg': cfg(2, 1, 1, 0, sampler='cheap', state='jax'), 'junk': False, 'sched': [[6000, 500, 0]]}
+    # a real kill and a real restart: two fresh interpreter processes with different hash seeds
+    yield {'cfg': cfg(4, 1, 1, 0, sampler='uniform', seed=3), 'junk': False, 'xproc': [5500]}
     if tier == 'thorough':
+      yield {'cfg': cfg(5, 2, 2, 1, nf=2, sampler='uniform', seed=1), 'junk': True, 'xproc': [3000, 8000]}
       yield {'cfg': cfg(101, 50, 2, 0, seed=2, sampler='cheap'), 'junk': True, 'enumerate': True, 'from': 99}
       for i in range(6):
         c = self._random_sched(rng, cfg)
@@ -455,12 +526,20 @@ class C09(core.Property):
     c = cfg(R, rng.choice([1, 1, 2, 3, 4]), rng.choice([1, 1, 2, 3]), rng.choice([0, 1, 2]),
             nf=rng.choice([0, 1, 1, 2]), vec=rng.choice([3, 3, 3, 17000]), seed=rng.randrange(6),
             sampler=rng.choice(['uniform', 'cheap', 'cheap']))
+    if rng.random() < 0.25:
+      c = cfg(R, c['freq'], c['keep'], c['evalFreq'], nf=c['nFinal'], vec=3, seed=c['seed'], sampler=c['sampler'],
+              state=rng.choice(['array', 'scalar', 'zerod', 'scalar']), zero_at=rng.randrange(0, R + 1))
     sched = [[rng.randrange(0, 10001), rng.randrange(0, 1001), rng.choice([0, 0, 0, 1, 2, 3])]
              for _ in range(rng.randrange(1, 4))]
     return {'cfg': c, 'junk': rng.random() < 0.3, 'sched': sched}
 
   def shrink(self, case):
     cfg = case['cfg']
+    if 'xproc' in case:
+      if len(case['xproc']) > 1:
+        for i in range(len(case['xproc'])):
+          yield {**case, 'xproc': case['xproc'][:i] + case['xproc'][i + 1:]}
+      return
     if 'enumerate' in case:
       hit = getattr(self, '_last_fail', {}).get(core.case_digest(case))
       if hit and hit[0] == 'hard':
@@ -526,7 +605,7 @@ class C09(core.Property):
   def evaluate(self, case, ctx):
     cfg = case['cfg']
     junk = dict(JUNK) if case.get('junk') else {}
-    w = self.world(cfg['seed'], cfg['vec'], max(cfg['R'], 1), cfg.get('sampler', 'uniform'))
+    w = self.world(cfg, max(cfg['R'], 1))
     if not w['distinct']:
       return Outcome(nontrivial=False, tags=('skipped:sampler-collision',))
     base = mkdtemp('verif_c09_')
@@ -542,6 +621,8 @@ class C09(core.Property):
         probs += self.oracle_saves(ref['saves'])
       if probs:
         return self._outcome(case, probs, corr, {'reference': str(ref['res'])}, False, ctx)
+      if 'xproc' in case:
+        return self._cross_process(case, ctx, base, cfg, w, junk, ref)
       if 'enumerate' in case:
         return self._enumerate(case, ctx, base, cfg, w, junk, ref)
       return self._schedule(case, ctx, base, cfg, w, junk, ref)
@@ -588,7 +669,7 @@ class C09(core.Property):
     if res[0] != 'ok':
       corr.append(f'{where}: impl re-run {res}, model completes with state {mstate}')
       return
-    rounds = self.rounds_of(res[1], w) if isinstance(res[1], dict) else None
+    rounds = self.rounds_of(res[1], w)
     if rounds != mstate:
       corr.append(f'{where}: re-run state rounds {rounds} vs model {mstate}')
     if canon(mlisting) != final_listing:
@@ -783,11 +864,43 @@ class C09(core.Property):
                          tags=('hard',) if case.get('hard') else ())
 
   # ------------------------------------------------------------------------------------------
-  def _hard_crash(self, d, cfg, c, p, junk):
-    """Real process death: a child process runs the invocation and calls os._exit at (c, p)."""
-    spec = json.dumps({'root': d, 'cfg': cfg, 'c': c, 'p': p})
+  def _cross_process(self, case, ctx, base, cfg, w, junk, ref):
+    """A real kill and a real restart: every interrupted invocation and the final re-run are separate, fresh
+    interpreter processes with different PYTHONHASHSEEDs (as after any real crash); the result is compared with
+    the never-interrupted run of this process.  Oracle only."""
+    d = self.fresh_dir(base, 'run', junk)
+    probs, steps = [], []
+    for i, cf in enumerate(case['xproc']):
+      probe = self.fresh_dir(base, 'probe', junk, src=d)
+      pin = Injector()
+      self.invoke(probe, cfg, pin, [])
+      c = (cf * (len(pin.events) + 1)) // 10001
+      r1 = self._hard_crash(d, cfg, c, 0, junk, hashseed=str(101 + i))
+      listing, _, states = self.observe(d, w, junk)
+      steps.append({'killed_before_event': c, 'of_events': len(pin.events), 'hashseed': 101 + i,
+                    'next_event': [str(x) for x in pin.events[c]] if c < len(pin.events) else None,
+                    'listing_after': listing, 'result': r1[0]})
+      for key, txt in self.oracle_crashed_dir(d, cfg, w, junk, states):
+        probs.append((key, f'after process {i + 1} (PYTHONHASHSEED={101 + i}) was killed before event {c}: {txt}'))
+      ctx.count('cross_process_kills')
+    out = os.path.join(base, 'result.pickle')
+    r2 = self._hard_crash(d, cfg, None, 0, junk, hashseed='977', result_path=out)
+    res = ('raise', r2[1]) if r2[0] == 'raise' else ('ok', pickle.load(open(out, 'rb')) if os.path.exists(out) else None)
+    if not probs:
+      probs += [(k + '-across-processes', f'after {len(steps)} real kill(s), the re-run in a fresh interpreter '
+                 f'(different PYTHONHASHSEED): ' + t) for k, t in self.oracle_completed(res, d, cfg, w, ref, [])]
+    ctx.count('reruns')
+    return self._outcome(case, probs, [], {'steps': steps, 'rerun': str(res[0] == 'ok' or res[1])},
+                         cfg['freq'] > 0, ctx, tags=('cross-process',))
+
+  def _hard_crash(self, d, cfg, c, p, junk, hashseed=None, result_path=None):
+    """Real process death: a child process runs the invocation and calls os._exit at (c, p)
+    (c None: it runs to completion and pickles the returned state to result_path)."""
+    spec = json.dumps({'root': d, 'cfg': cfg, 'c': c, 'p': p, 'result_path': result_path})
     env = dict(os.environ)
     env['VERIF_REPO'] = core.REPO
+    if hashseed is not None:
+      env['PYTHONHASHSEED'] = hashseed
     here = os.path.dirname(os.path.dirname(os.path.abspath(__file__)))
     code = ('import sys, os; sys.path.insert(0, %r); sys.path.insert(0, %r); '
             'os.environ.setdefault("JAX_PLATFORMS", "cpu"); '
@@ -797,6 +910,9 @@ class C09(core.Property):
       return ('crash', None)
     if pr.returncode == 0:
       return ('ok', None)
+    if pr.returncode == 3:
+      last = [l for l in pr.stdout.splitlines() if l.startswith('RAISED ')]
+      return ('raise', last[-1][7:] if last else 'unknown')
     raise core.InfraError(f'hard-crash child failed rc={pr.returncode}: {pr.stderr[-400:]}')
 
 
@@ -819,6 +935,15 @@ def child_main(spec_json):
   prop.no_flush = True     # let the real buffering decide what is on disk at the moment of death
   inj = _ExitInjector(crash_at=spec['c'], prefix=spec['p'])
   res = prop.invoke(spec['root'], spec['cfg'], inj, [])
+  if res[0] == 'ok' and spec.get('result_path'):
+    st = res[1]
+    if not isinstance(st, (dict, int, np.ndarray, np.generic)):
+      st = np.asarray(st)
+    with open(spec['result_path'], 'wb') as f:
+      pickle.dump(st, f)
+  if res[0] == 'raise':
+    print('RAISED ' + str(res[1]))
+  sys.stdout.flush()
   sys.exit(0 if res[0] == 'ok' else 3)
 
 
